@@ -16,6 +16,8 @@ import (
 	"encoding/json"
 	"fmt"
 	"os"
+	"os/signal"
+	"runtime/coverage"
 	"strconv"
 	"strings"
 	"sync"
@@ -96,4 +98,21 @@ func verifStatusWrite(filename string, fileWasEmpty bool, old verifStatusSnapsho
 	if err == nil {
 		verifAppend(lf, string(line))
 	}
+}
+
+// Coverage runs of the verification harness (binary built with -cover, GOCOVERDIR set): the daemon
+// has no orderly shutdown, so a daemon that is stopped with SIGTERM would never write its counters.
+// Only then, and only in the daemon, SIGTERM writes them and exits.
+func init() {
+	dir := os.Getenv("GOCOVERDIR")
+	if dir == "" || verifRole() != "daemon" {
+		return
+	}
+	ch := make(chan os.Signal, 1)
+	signal.Notify(ch, syscall.SIGTERM)
+	go func() {
+		<-ch
+		_ = coverage.WriteCountersDir(dir)
+		os.Exit(0)
+	}()
 }
